@@ -101,6 +101,27 @@ def gen(ctx):
                 del exp[rid]
                 cancelled.add(rid)
         items.append((L.Sched(conf=ART_CONF, labels=labels + L.flush(rid), note="mixed typed lists"), {"expect": exp, "frames": frames}))
+    # the application has dropped its ConnectionEvents (allowed) and the idle that a list interrupts reports changes (in the reply to
+    # noidle, or just before it): nobody is there to be told, and the list is answered like any other
+    for kind in "vy":
+        for pre in (["N:" + hexs("player")], ["N:" + hexs("player"), "N:" + hexs("mixer")], ["N:" + hexs("player"), "S*"], ["N:" + hexs("player"), "S*", "D9"], []):
+            for drop in (["S*", "Z"], ["Z"], ["S*", "D0", "Z", "t200"]):
+                specs1, want1, lines1 = any_specs(rng, 3 if kind == "y" else 4, 1)
+                specs2, want2, lines2 = any_specs(rng, 2, 2)
+                labels = ["D0"] + drop + ["S*", "D0"] + pre + [f"{kind}1:" + ",".join(specs1)] + ["S*", "D0"] * 3 + ["t200", "S*", "D0", "N:" + hexs("output"), f"{kind}2:" + ",".join(specs2)]
+                items.append((L.Sched(conf=ART_CONF, labels=labels + L.flush(2), note="lists interrupting an idle that reports changes, nobody listening for events"),
+                              {"expect": {1: "ok[" + ",".join(want1) + "]", 2: "ok[" + ",".join(want2) + "]"}, "frames": [lines1, lines2]}))
+    # writes start failing while the reply to one list is on its way and the next list is already queued: the first list was answered
+    # completely and its caller gets its values; only the list that could not be written fails
+    for kind in "vy":
+        for wl in ("w", "w1"):
+            for mid in ([], ["D7"], ["D1", "D1"]):
+                specs1, want1, lines1 = any_specs(rng, 3, 1)
+                specs2, want2, lines2 = any_specs(rng, 2, 2)
+                # (the idle is cancelled and list 1 written before the fault; its reply is produced, then writes begin to fail, then it arrives)
+                labels = ["D0", f"{kind}1:" + ",".join(specs1), f"{kind}2:" + ",".join(specs2), "S*", "D0", "S*"] + mid + [wl, "D0", "t200", "t200"]
+                items.append((L.Sched(conf=ART_CONF, labels=labels, note="writes fail after a list was answered, with the next list queued"),
+                              {"expect": {1: "ok[" + ",".join(want1) + "]"}, "frames": None}))
     # a malformed line in the middle of the reply to a list: that list fails; a list issued right afterwards gets an error or ITS OWN
     # values — never what was left of the broken reply
     for bad in (b"\xff\n", b"what\n", b"\n", b": x\n"):
